@@ -4,6 +4,9 @@ manifest stays valid while checks are added)."""
 import json, os
 ROOT = os.path.dirname(os.path.abspath(__file__))
 CHECKS = {
+ "C17": dict(level="exploration", technique="counting allocator (live heap, slope test, release to baseline) + structural invariant hook verif_stats() at quiescent points, one scenario per single-threaded child process, real sleeps for timeouts",
+     text="About 200 (quick) / 1500 (thorough) scenarios of undecodable traffic - cached packets without FDT, many cached objects, decoded blocks waiting behind block 0 for four schemes, FDT ids that never complete, hundreds of idle sessions, failing objects, many FDT instances - over cache sizes 1 KiB..default, error-list lengths, timeouts and traffic scales; after every batch the hook exposes per-object cached bytes, waiting block bytes, list lengths, and the allocator the live heap; 10x more traffic must not cost more heap, and after 12x the timeouts one cleanup must leave no session, object or unfinished FDT and the heap at baseline. Held on the scenarios run.",
+     note="trusted: counting allocator, verif_stats hook (MANIFEST.hooks), wall-clock sleeps with 12x margin", ref="DESIGN.md §5 C17"),
  "C16": dict(level="fault_enumeration", technique="exhaustive join-offset enumeration over one carousel cycle per configuration; bounded-progress oracle (two further full object transfers and FDT emissions computed from Start/Stop events and the independent decoder) at the monitoring writer",
      text="For 240 (quick) / 720 (thorough) carousel configurations - 5 FEC schemes x in-band/FDT-only FTI and CENC x cenc x 1-5 objects x delay/interval x both publish modes x single/multi-packet and scheme-protected FDT x interleave x multiplexing - a fresh receiver is started at every packet offset of a full cycle and must deliver every object byte-exact by the end of the window the property names. Complete over the join offsets of each built configuration.",
      note="trusted: Start/Stop events + independent decoder for the window; receiver without object timeout; 1 h FDT duration", ref="DESIGN.md §5 C16"),
